@@ -84,6 +84,12 @@ CHECKS = {
              "(Session!Det); (c) all schedules of Sched.tla (interleavings of the first K gate steps of two queries) are forced on the real code with blocking gates inside "
              "MergeBlockBodySchemas, with fingerprints of the shared context while a query is parked.",
         ref="DESIGN.md 5/C05", technique="PlusCal/TLA+ interleaving model (Concurrent.tla) + TLC-generated schedules forced via gates + race detector events + TLC trace validation (memo rule)"),
+    "C10": dict(
+        text="ExprRules.tla defines OriginsP(constraint, expression): the reference leaves at places where the constraint admits a reference or an arbitrary expression (through "
+             "lists, maps, objects, templates, operators, conditionals, for, index keys, arguments of known functions, parentheses; self.* only where enabled). MC_Expr enumerates "
+             "(constraint, well-typed expression, placement) cases, TLC checks structural invariants of the operators and prints the cases; the harness builds schema + two-file "
+             "document, and TraceExpr compares the real CollectReferenceOrigins (file, exact range, address, order, no duplicates) with OriginsP using the renderer's extents.",
+        ref="DESIGN.md 5/C10", technique="TLC model checking of ExprRules.tla (MC_Expr) + replay of TLC-generated cases + TLC trace validation (TraceExpr)"),
 }
 
 NOT_YET = {
